@@ -49,9 +49,12 @@ Lemma tie_actions : f_action_property = 5%N /\ f_action_setproperty = 6%N. Proof
    refused before anything is changed, otherwise the entry is appended; remove_user: first entry with
    this (user id, endpoint), the last entry is moved into its slot; subs_of: UpdateSignal sends to the
    entries of that signal id, in table order; SignalBoom is UpdateSignal(100, le32 x) *)
+(* the pinned text, or the text after repair acc48f8 (the closer only forgets the table entry: same table, same order) *)
 Lemma tie_add_user_text : f_c14_addsignaluser_text =
-  "func (o *signalHandler) addSignalUser(userID uint64, signalID, messageID uint32, from Channel) error { newUser := signalUser{ signalID: signalID, messageID: messageID, userID: userID, context: from, contextID: 0, } o.signalsMutex.Lock() for _, user := range o.signals { if user.userID == userID && user.context.EndPoint() == from.EndPoint() { o.signalsMutex.Unlock() return fmt.Errorf("""", userID) } } o.signalsMutex.Unlock() e := from.EndPoint() f := func(hdr *net.Header) (bool, bool) { return false, true } q := make(chan<- *net.Message) cl := func(err error) { o.removeSignalUser(userID, from) } newUser.contextID = e.MakeHandler(f, q, cl) o.signalsMutex.Lock() o.signals = append(o.signals, newUser) o.signalsMutex.Unlock() return nil }".
-Proof. reflexivity. Qed.
+  "func (o *signalHandler) addSignalUser(userID uint64, signalID, messageID uint32, from Channel) error { newUser := signalUser{ signalID: signalID, messageID: messageID, userID: userID, context: from, contextID: 0, } o.signalsMutex.Lock() for _, user := range o.signals { if user.userID == userID && user.context.EndPoint() == from.EndPoint() { o.signalsMutex.Unlock() return fmt.Errorf("""", userID) } } o.signalsMutex.Unlock() e := from.EndPoint() f := func(hdr *net.Header) (bool, bool) { return false, true } q := make(chan<- *net.Message) cl := func(err error) { o.removeSignalUser(userID, from) } newUser.contextID = e.MakeHandler(f, q, cl) o.signalsMutex.Lock() o.signals = append(o.signals, newUser) o.signalsMutex.Unlock() return nil }"
+  \/ f_c14_addsignaluser_text =
+  "func (o *signalHandler) addSignalUser(userID uint64, signalID, messageID uint32, from Channel) error { newUser := signalUser{ signalID: signalID, messageID: messageID, userID: userID, context: from, contextID: 0, } o.signalsMutex.Lock() for _, user := range o.signals { if user.userID == userID && user.context.EndPoint() == from.EndPoint() { o.signalsMutex.Unlock() return fmt.Errorf("""", userID) } } o.signalsMutex.Unlock() e := from.EndPoint() f := func(hdr *net.Header) (bool, bool) { return false, true } q := make(chan<- *net.Message) cl := func(err error) { o.forgetSignalUser(userID, from) } newUser.contextID = e.MakeHandler(f, q, cl) o.signalsMutex.Lock() o.signals = append(o.signals, newUser) o.signalsMutex.Unlock() return nil }".
+Proof. first [left; reflexivity | right; reflexivity]. Qed.
 Lemma tie_remove_user_text : f_c14_removesignaluser_text =
   "func (o *signalHandler) removeSignalUser(userID uint64, from Channel) error { o.signalsMutex.Lock() for i, user := range o.signals { if user.userID == userID { if from.EndPoint() == user.context.EndPoint() { o.signals[i] = o.signals[len(o.signals)-1] o.signals = o.signals[:len(o.signals)-1] o.signalsMutex.Unlock() user.context.EndPoint().RemoveHandler(user.contextID) return nil } } } o.signalsMutex.Unlock() return fmt.Errorf("""", userID) }".
 Proof. reflexivity. Qed.
